@@ -131,6 +131,14 @@ impl<'a> TXT<'a> {
     }
 }
 
+#[cfg(simple_dns_verif)]
+impl<'a> TXT<'a> {
+    /// Verification hook: the raw bytes of every character string, in order
+    pub fn verif_strings(&self) -> Vec<&[u8]> {
+        self.strings.iter().map(|s| s.verif_bytes()).collect()
+    }
+}
+
 impl<'a> TryFrom<HashMap<String, Option<String>>> for TXT<'a> {
     type Error = crate::SimpleDnsError;
 
